@@ -7,7 +7,8 @@
 From Coq Require Import List ZArith String.
 From AGH Require Import Model.Migrate Proofs.Migrate Proofs.MigrateFrame Proofs.MigrateSim
   Proofs.MigrateTable Gen.MigrateTable Proofs.MigrateFrameDns Proofs.MigrateElems
-  Model.MigrateLoad Proofs.MigrateLoadable Proofs.MigrateLoadableC Proofs.MigrateLoadableH Proofs.MigrateBack.
+  Model.MigrateLoad Proofs.MigrateLoadable Proofs.MigrateLoadableC Proofs.MigrateLoadableH Proofs.MigrateBack
+  Model.MigrateKinds Proofs.MigrateKinds.
 Import ListNotations.
 Local Open Scope string_scope.
 Local Open Scope Z_scope.
@@ -380,6 +381,41 @@ Example C13_loadable_satisfiable :
   exists a, migrate oracles0 (Some doc3_clients) 29 = ONew a /\ loadable 29 a = true /\ loadable 29 (norm_obj a) = true.
 Proof. exact loadable_doc3. Qed.
 Print Assumptions C13_loadable_satisfiable.
+
+(** ** The table against the real decoder
+
+    [kinds_accept] (Model/MigrateKinds.v) is the verdict of [yaml.Unmarshal]
+    into the [configuration] type on the kinds of a document of the current
+    schema version, read off the same table ([decodes]: null accepted
+    everywhere, any float at an integer field).  The harness compares it with
+    the real decoder, accept with accept and reject with reject, on a document
+    holding every key of the table mutated at one position at a time (about
+    1100 documents per run), and compares the table with the Go types found by
+    reflection at every yaml path.  What is loadable decodes; so every upgrade
+    to the current version of a document loadable at its own version is
+    accepted by the decoder's kind check, as a tree and as a file. *)
+Theorem C13_loadable_decodes : forall m, loadable current m = true -> kinds_accept m = true.
+Proof. exact loadable_kinds_accept. Qed.
+Print Assumptions C13_loadable_decodes.
+
+Theorem C13_output_decodes : forall O top a,
+  migrate O top 29 = ONew a ->
+  loadable (nat_version (input_map top)) (input_map top) = true ->
+  kinds_accept a = true /\ kinds_accept (norm_obj a) = true.
+Proof. exact migrate_output_kinds_accept. Qed.
+Print Assumptions C13_output_decodes.
+
+Example C13_kinds_told_apart :
+  kinds_accept [("schema_version", VInt 29); ("filtering", VNull)] = true /\
+  loadable 29 [("schema_version", VInt 29); ("filtering", VNull)] = false /\
+  kinds_accept [("schema_version", VInt 29); ("log", VObj [("max_age", VFloat None "2.5")])] = true /\
+  loadable 29 [("schema_version", VInt 29); ("log", VObj [("max_age", VFloat None "2.5")])] = false /\
+  kinds_accept [("schema_version", VInt 29); ("dns", VObj [("bind_hosts", VStr "127.0.0.1")])] = false /\
+  kinds_accept [("schema_version", VInt 29); ("log", VObj [("max_size", VStr "big")])] = false /\
+  kinds_accept [("schema_version", VInt 29); ("log", VObj [("file", VInt 5)])] = true /\
+  kinds_accept [("schema_version", VInt 29); ("log", VArr [])] = false.
+Proof. exact kinds_examples. Qed.
+Print Assumptions C13_kinds_told_apart.
 
 Example C13_null_pointer_section_not_loadable :
   loadable 29 [("schema_version", VInt 29); ("filtering", VNull)] = false /\
